@@ -28,7 +28,6 @@ import (
 	api "k8s.io/api/core/v1"
 	networking "k8s.io/api/networking/v1"
 	"k8s.io/apimachinery/pkg/api/meta"
-	metav1 "k8s.io/apimachinery/pkg/apis/meta/v1"
 	"k8s.io/apimachinery/pkg/runtime"
 	"k8s.io/apimachinery/pkg/runtime/serializer"
 	k8stypes "k8s.io/apimachinery/pkg/types"
@@ -189,12 +188,12 @@ func ordered[T any](xs []T, order []int) []T {
 
 // Result is what one run produced.
 type Result struct {
-	Behaviour *sem.Behaviour
-	Canon     string
-	Lists     int
+	Behaviour       *sem.Behaviour
+	Canon           string
+	Lists           int
 	Reconciliations int
-	ConvLog   []string
-	Pipeline  *pipeline.Pipeline // closed unless keep
+	ConvLog         []string
+	Pipeline        *pipeline.Pipeline // closed unless keep
 }
 
 // Exec creates a fresh real pipeline, feeds it as r says and returns the behaviour of the
@@ -555,6 +554,3 @@ func GenCluster(rng *rand.Rand, cfg world.Config, level int) []client.Object {
 
 // Universe is the request universe of the C06 behaviours.
 func Universe() sem.Universe { return sem.DefaultUniverse(Hosts, Paths) }
-
-// TimeOf is a helper for tests.
-func TimeOf(n int) metav1.Time { return world.Stamp(n) }
